@@ -1,7 +1,7 @@
 #!/bin/bash
-# setup_cmd: regenerate the tables from /repo and build models, proofs and the driver (offline).
+# setup_cmd: regenerate the tables from /repo and build models, every property's theorems and the driver (offline).
 set -e
 cd "$(dirname "$0")"
 /venv/bin/python harness/extract.py
 cd lean
-flock .build.lock lake build LiquerModel LiquerProofs driver
+flock .build.lock lake build LiquerModel driver $(ls LiquerProofs/Props/*.lean LiquerProofs/Inst/*.lean | sed 's/\.lean$//; s#/#.#g')
